@@ -12,6 +12,7 @@ Lines (tab separated):
   lend.cfg.app     id isCommodo
   lend.init        <state>
   lend.op <name> args… <outcome> <state>                         -- outcome ∈ ok err err:basic panic
+  lend.handover borrowId newInterest <outcome> <state>           -- the V2 liquidation hand-over (own trace kind: own call site)
 <state> := ctr(lendCtr,borrowCtr)  L  B  S  K  P   (six fields, records `|`-separated, record fields `:`-separated)
   L id:owner:pool:asset:amountIn:avail
   B id:lendingId:pairId:inDenom:amountIn:outDenom:amountOut:interest:stable:liq:brDenom:bridged:reserveInt
@@ -19,7 +20,12 @@ Lines (tab separated):
   K acct:denom:amount        P asset:twa
 ExtB := `-` (error) | `!` (panic) | dI:dR.   The model is re-synchronised to the real state after every line.
 
-Monitors (evaluated on the REAL state projection): total_lend total_borrowed total_stable ltv pool_funds pledged_safe.
+Monitors (evaluated on the REAL state projection): total_lend total_borrowed total_stable ltv pool_funds pledged_safe, and
+total_lend_orphaned. The three book monitors compare, per (pool, asset), the GAP between the published total and the sum over
+positions before and after the line and fire when a gap changes to a non-zero value — so a mismatch that is already there (a known
+finding earlier in the history) neither repeats on later lines nor hides a new cause. `total_lend_orphaned` replaces `total_lend` on a
+hand-over line whose new gap is exactly what was left in the lend position the hand-over deleted (availableToBorrow + other open
+pledges): finding D19.
 -/
 -- DRIVER: prefix=lend ns=Comdex.Drv.Lend
 namespace Comdex.Drv.Lend
@@ -28,9 +34,6 @@ open Comdex Comdex.Lend Comdex.Line
 structure St where
   cfg : Cfg := {}
   s : State := {}
-  okLend : Bool := true
-  okBor : Bool := true
-  okStable : Bool := true
 
 def init : St := {}
 
@@ -260,6 +263,35 @@ def monitors (cfg : Cfg) (pre post : State) (op : Op) : List String :=
     | none => ["pledged_safe"]
   | _ => []
 
+/-- per (pool, asset): published total − sum over positions (non-zero entries only) -/
+def lendGaps (s : State) : List ((Nat × Nat) × Int) :=
+  (s.stats.map fun st => ((st.pool, st.asset), st.totalLend - lendSum s.lends s.borrows st.pool st.asset)).filter fun e => e.2 != 0
+def borGaps (cfg : Cfg) (stable : Bool) (s : State) : List ((Nat × Nat) × Int) :=
+  (s.stats.map fun st => ((st.pool, st.asset),
+      (if stable then st.totalStable else st.totalBorrowed) - borrowedSum cfg s.borrows st.pool st.asset stable)).filter fun e => e.2 != 0
+/-- some gap is non-zero after the line and was different before it -/
+def gapChanged (pre post : List ((Nat × Nat) × Int)) : Bool :=
+  post.any fun e => (pre.lookup e.1).getD 0 != e.2
+
+/-- D19: the line is a hand-over that deleted the lend position, and the only lent-total gap that moved is the one of that position's
+(pool, asset), by exactly what was left in the position (availableToBorrow + pledges of its other open borrows). -/
+def orphanedBy (pre post : State) (op : Op) : Bool :=
+  match op with
+  | .handover k _ =>
+    match getBorrow pre.borrows k with
+    | none => false
+    | some b =>
+      match getLend pre.lends b.lendingId, getLend post.lends b.lendingId with
+      | some l, none =>
+        let left := l.avail + pledgedOf pre.borrows l.id - b.amountIn
+        let g0 := lendGaps pre
+        let g1 := lendGaps post
+        decide (left > 0) && g1.all fun e =>
+          let old := (g0.lookup e.1).getD 0
+          if e.1 = (l.pool, l.asset) then e.2 == old + left else e.2 == old
+      | _, _ => false
+  | _ => false
+
 def extNonneg : Op → Bool
   | .lend _ _ _ _ _ _ r => r ≥ 0
   | .deposit _ _ _ _ r => r ≥ 0
@@ -289,12 +321,20 @@ def handleOp (st : St) (seq name : String) (args : List String) (outcome : Strin
         if outcome = "ok" then [s!"DIFF\t{seq}\t{name}\tmodel=err({e}) impl=ok"]
         else (diffCanon (canon st.cfg pre) ci).map fun d => s!"DIFF\t{seq}\t{name}\trejected message changed state: {d}"
     let mons := if outcome = "ok" then monitors st.cfg pre impl op else []
-    let l := decide (TotalLendEq impl)
-    let b := decide (TotalBorrowedEq st.cfg impl)
-    let t := decide (TotalStableEq st.cfg impl)
-    let mons := mons ++ (if !l && st.okLend then ["total_lend"] else []) ++ (if !b && st.okBor then ["total_borrowed"] else [])
-                     ++ (if !t && st.okStable then ["total_stable"] else [])
-    ({ st with s := impl, okLend := l, okBor := b, okStable := t }, bad ++ diffs ++ mons.map fun m => s!"MON\t{seq}\t{m}\t{name}")
+    let gl := gapChanged (lendGaps pre) (lendGaps impl)
+    let lendName := if orphanedBy pre impl op then "total_lend_orphaned" else "total_lend"
+    let mons := mons ++ (if gl then [lendName] else [])
+                     ++ (if gapChanged (borGaps st.cfg false pre) (borGaps st.cfg false impl) then ["total_borrowed"] else [])
+                     ++ (if gapChanged (borGaps st.cfg true pre) (borGaps st.cfg true impl) then ["total_stable"] else [])
+    ({ st with s := impl }, bad ++ diffs ++ mons.map fun m => s!"MON\t{seq}\t{m}\t{name}")
+
+def opLine (st : St) (seq name : String) (rest : List String) : St × List String :=
+  let n := rest.length
+  if n < 7 then (st, [s!"BAD\t{seq}\top fields"]) else
+  let args := rest.take (n - 7)
+  match rest.drop (n - 7) with
+  | outcome :: implF => handleOp st seq name args outcome implF
+  | [] => (st, [s!"BAD\t{seq}\top fields"])
 
 def handle (st : St) (seq : String) (f : List String) : St × List String :=
   let bad (w : String) : St × List String := (st, [s!"BAD\t{seq}\t{w}"])
@@ -335,16 +375,10 @@ def handle (st : St) (seq : String) (f : List String) : St × List String :=
       -- the model's genesis must be the real genesis: zero totals for every (pool, asset)
       let g := Comdex.Lend.init st.cfg s.bank s.prices
       let d := (diffCanon (canon st.cfg g) (canon st.cfg s)).map fun x => s!"DIFF\t{seq}\tinit\t{x}"
-      ({ st with s := s, okLend := true, okBor := true, okStable := true }, d)
+      ({ st with s := s }, d)
     | none => bad "init state"
-  | "lend.op" :: name :: rest =>
-    let n := rest.length
-    if n < 7 then bad "op fields" else
-    let args := rest.take (n - 7)
-    let tail := rest.drop (n - 7)
-    match tail with
-    | outcome :: implF => handleOp st seq name args outcome implF
-    | [] => bad "op fields"
+  | "lend.handover" :: rest => opLine st seq "handover" rest
+  | "lend.op" :: name :: rest => opLine st seq name rest
   | _ => bad "unknown lend line"
 
 end Comdex.Drv.Lend
